@@ -78,6 +78,13 @@ struct State {
 thread_local! {
     static SCRIPT: RefCell<Option<State>> = RefCell::new(None);
     static DRAWS: std::cell::Cell<u64> = std::cell::Cell::new(0);
+    static DRAW_LIMIT: std::cell::Cell<u64> = std::cell::Cell::new(u64::MAX);
+}
+
+/// Pass-through watchdog: panic (unwinding the subject) once `draws()` exceeds `limit`.
+/// `None` removes the limit.
+pub fn set_draw_limit(limit: Option<u64>) {
+    DRAW_LIMIT.with(|d| d.set(limit.unwrap_or(u64::MAX)));
 }
 
 pub const LIVELOCK_MSG: &str = "alea-shim: livelock (default-answer budget exceeded)";
@@ -127,7 +134,13 @@ pub(crate) fn intercept(kind: Kind) -> Option<Ans> {
             None => {
                 // pass-through: every real draw funnels through `Rng::u64`
                 if kind == Kind::Word {
-                    DRAWS.with(|d| d.set(d.get() + 1));
+                    let n = DRAWS.with(|d| {
+                        d.set(d.get() + 1);
+                        d.get()
+                    });
+                    if n > DRAW_LIMIT.with(|l| l.get()) {
+                        livelock = true;
+                    }
                 }
                 return None;
             }
